@@ -1852,6 +1852,10 @@ def c16(tier, seed):
     rng = random.Random(seed)
     mc = vlib.run_tlc("Delay", "Delay.cfg", wd, timeout=900, workers=12)
     mc["text"] = ""
+    # the bookkeeping of the implementation before repair 65756c8 (one timer guard per send id) must stay refuted
+    if not vlib.run_tlc("Delay", "Delay.cfg", wd, timeout=900, workers=4, consts={"MapSemantics": "TRUE"},
+                        expect_violation="CancelIsolated")["refuted"]:
+        raise ToolError("C16: Delay.tla no longer refutes MapSemantics = TRUE")
     nsim = 40 if tier == "quick" else 400
     sim = vlib.run_tlc("Delay", "DelaySim.cfg", wd, workers=1, timeout=600, simulate=(nsim, 40, seed + 1))
     behaviours = []
